@@ -448,7 +448,11 @@ impl wire::Decode for ZeroBytes {
     fn decode<R: std::io::Read + ?Sized>(reader: &mut R) -> Result<Self, wire::Error> {
         let zeroes = u16::decode(reader)?;
         for _ in 0..zeroes {
-            _ = u8::decode(reader)?;
+            // Nb. Only zeroes are ever encoded: anything else would decode to a
+            // message that doesn't re-encode to the bytes received.
+            if u8::decode(reader)? != 0 {
+                return Err(wire::Error::UnexpectedBytes);
+            }
         }
         Ok(ZeroBytes::new(zeroes))
     }
